@@ -52,7 +52,27 @@ ComposeApply(i, k, off, mode) ==
      /\ out'  = << IF mode = "Xinv(Xp)" THEN p ELSE Act(Compose(a, b), p) >>
      /\ outR' = << IF mode = "Xinv(Xp)" THEN p ELSE Act(Rot(Compose(a, b)), p) >>
 
+\* X.inv() * (X * p) == p with a MULTI-valued X: value j of X.inv() applied to column j of X * p gives p back
+ManyInvApply(i, k, off) ==
+  /\ call.op = "none"
+  /\ call' = [op |-> "many-inv", poses |-> [j \in 1..k |-> Hom(PoseAt(i + j - 1))], pts |-> << PointAt(off + 1) >>, form |-> "array"]
+  /\ out'  = [j \in 1..k |-> Pt(PointAt(off + 1))]
+  /\ outR' = [j \in 1..k |-> Pt(PointAt(off + 1))]
+
+\* valuation case (no exact value): a rotation by a TINY angle, or within a tiny angle of a half turn (angle tag), about an axis, applied to a point through every route;
+\* the expected point is Rodrigues' formula evaluated by the harness from the elementary cos / sin
+TinyTags == {"1e-9", "1e-8", "1e-7", "4e-7", "1e-6", "1e-5", "2pi-1e-7", "pi-1e-9", "pi-1e-7", "pi-1e-5", "pi"}
+\* (the tags near pi exercise the other end of the quaternion conversion: scalar part close to 0)
+TinyAxes == { <<1,0,0>>, <<0,1,0>>, <<0,0,1>>, <<1,2,2>>, <<2,-3,6>> }
+TinyRot(tag, ax, off) ==
+  /\ call.op = "none"
+  /\ call' = [op |-> "tiny-rotation", tag |-> tag, axis |-> ax, pts |-> << PointAt(off + 1) >>, form |-> "array"]
+  /\ out'  = << >>
+  /\ outR' = << >>
+
 Next ==
+  \/ \E i \in 1..NP : \E k \in 2..MaxK : \E off \in 0..1 : ManyInvApply(i, k, off)
+  \/ \E tag \in TinyTags : \E ax \in TinyAxes : \E off \in 0..2 : TinyRot(tag, ax, off)
   \/ \E i \in 1..NP : \E k \in 1..NP : \E off \in 0..1 : \E mode \in {"(XY)p", "X(Yp)", "Xinv(Xp)"} :
         ComposeApply(i, k, off, mode)
   \/ \E i \in 1..NP : \E N \in 1..MaxN : \E off \in 0..2 : \E f \in Forms \cup {"matrix"} : OneToMany(i, N, off, f)
